@@ -56,6 +56,10 @@ def run(prog: Program, col: Collector, tier: str, refs: Optional[Refs] = None, c
     algebra.r_commutative_default_symmetric(prog, col, refs, cat, "R01.12")
     algebra.r_reduce_rules_keep_absent_vars(prog, col, refs, cat, "R01.14")
     algebra.r_size_product_over_sequence(prog, col, refs, cat, "R01.15")
+    # eager evaluation of (Number, Tensor) and (Tensor, Number) operands runs the mixed scalar/array kernels: mirror images for commutative ops
+    col.rule("R01.16", "mixed scalar/array registrations of a commutative op are mirror images", floor=6)
+    from . import c15
+    c15._mirror(prog, col, refs, cat)
     # eager evaluation of Number operands runs the scalar implementation of an op, of Tensor operands the array one: they must agree
     from . import numerics
     numerics.run_agreement(prog, col, refs, cat, rule="R01.13")
